@@ -112,6 +112,9 @@ def respects_break(P, body, cs, visitor_sites):
     return True, "propagated"
 
 
+OVERLAYS = ('K2b',)
+
+
 def run(chk):
     P = mir.Program("K1")
     chk.use_program(P)
